@@ -71,6 +71,17 @@ def make_input(case):
             if n > 1 and perm == sorted(perm):
                 perm = perm[1:] + perm[:1]
             m = np.array(PermutationMatrix.from_qudit_location(n, r, perm).numpy)
+        elif fam == 'perm_local':             # P(perm) . (u_0 (x) ... (x) u_{n-1}): needs no entangler once P is factored out
+            # qubits: factors in U3 form (real non-negative top-left entry).  A lone U3 layer cannot absorb the global
+            # phase of a Haar factor under the residual-based instantiater, and the point of this family is that the
+            # right output permutation leaves a target the initial layer already reaches.
+            def u3(t, p_, l_):
+                return np.array([[np.cos(t / 2), -np.exp(1j * l_) * np.sin(t / 2)],
+                                 [np.exp(1j * p_) * np.sin(t / 2), np.exp(1j * (p_ + l_)) * np.cos(t / 2)]])
+            loc = np.array([[1]], dtype=complex)
+            for _ in range(n):
+                loc = np.kron(loc, u3(*rs.uniform(0.2, 2.8, 3)) if r == 2 else haar(r))
+            m = perm_matrix(n, r, case['perm']) @ loc
         elif fam == 'diagonal':
             m = np.diag(np.exp(1j * rs.uniform(0, 2 * np.pi, dim)))
         elif fam == 'clifford':
@@ -262,6 +273,9 @@ def worker_main():
             return MachineModel(n, gate_set={CZGate(), RZGate(), SqrtXGate()})
         if m == 'wide':
             return MachineModel(n + 1)
+        if m == 'swapu3':
+            from bqskit.ir.gates import SwapGate
+            return MachineModel(n, gate_set={SwapGate(), U3Gate()})
         raise ValueError(m)
 
     for line in sys.stdin:
@@ -385,7 +399,7 @@ def bound_cost(case, res):
     covers the analytic decompositions.  FLOAT_SLACK covers the difference between the native cost evaluation and
     numpy's (<= ~100 gates * dim 27 * 2.2e-16)."""
     eps = case.get('eps', 1e-8)
-    if case['kind'] == 'unitary' and case.get('model', 'dflt') != 'dflt':
+    if case['kind'] == 'unitary' and case.get('model', 'dflt') not in ('dflt', 'wide', 'swapu3'):   # U3 native: no retarget
         m = res.get('ops', 0)
         return (math.sqrt(eps) + m * math.sqrt(2 * 1e-8)) ** 2 + FLOAT_SLACK
     return eps + FLOAT_SLACK
@@ -992,6 +1006,169 @@ def _same(a, b):
 
 
 # =======================================================================================
+# E. permutation bookkeeping of PermutationAwareSynthesisPass / EmbedAllPermutationsPass
+# =======================================================================================
+def perm_matrix(n, r, loc):
+    """Textbook matrix of the qudit relabelling: position i of the output index receives qudit loc[i]
+    (the convention of PermutationMatrix.from_qudit_location, re-derived here; cross-checked below)."""
+    import numpy as np
+    dim = r ** n
+    m = np.zeros((dim, dim))
+    for col in range(dim):
+        digs = [(col // r ** (n - 1 - q)) % r for q in range(n)]
+        out = [digs[loc[i]] for i in range(n)]
+        m[sum(dg * r ** (n - 1 - i) for i, dg in enumerate(out)), col] = 1
+    return m
+
+
+def pas_probe(ctx):
+    """Pass-level: the REAL PermutationAwareSynthesisPass.synthesize / EmbedAllPermutationsPass.run with an exact inner
+    synthesis and a scripted scoring function that makes EVERY candidate permutation win in turn.  Property (documented
+    meaning of the mappings, tests/compiler/compile/test_with_mapping.py):  circuit == PF^T . U . PI  for the
+    (initial_mapping, final_mapping) = (PI, PF) the pass reports - never 'up to some permutation'.  The winner and the
+    reported mapping are also compared with the extracted Coq model `pas`."""
+    import itertools as it
+    import numpy as np
+    from bqskit.ir.circuit import Circuit
+    from bqskit.compiler.passdata import PassData
+    from bqskit.passes.synthesis.pas import PermutationAwareSynthesisPass
+    from bqskit.passes.mapping.embed import EmbedAllPermutationsPass
+    from bqskit.passes.synthesis.synthesis import SynthesisPass
+    import bqskit.passes.synthesis.pas as pmod
+    import bqskit.passes.mapping.embed as emod
+    from bqskit.qis.unitary import UnitaryMatrix
+    from bqskit.qis.permutation import PermutationMatrix
+    rng = ctx.rng
+    st = dict(n=0, scores=[])
+
+    class Exact(SynthesisPass):
+        async def synthesize(self, target, data):
+            c = Circuit.from_unitary(UnitaryMatrix(np.array(target), target.radixes))
+            c._idx = st['n']
+            st['n'] += 1
+            return c
+
+    class RT:
+        async def map(self, fn, *its, **kw):
+            return [await fn(*a) for a in zip(*its)]
+
+    def drive(coro):
+        try:
+            coro.send(None)
+        except StopIteration as e:
+            return e.value
+        raise RuntimeError('pass suspended')
+
+    def score(c):
+        i = getattr(c, '_idx', None)
+        return st['scores'][i] if i is not None and i < len(st['scores']) else 10 ** 6
+
+    def local_perm_target(n, r, perm, seed):
+        loc = np.array([[1]], dtype=complex)
+        for q in range(n):
+            loc = np.kron(loc, np.array(make_input(dict(kind='unitary', family='haar', n=1, radix=r, seed=seed + q)).numpy))
+        return UnitaryMatrix(perm_matrix(n, r, perm) @ loc, [r] * n)
+
+    o_q, o_e = pmod.get_runtime, emod.get_runtime
+    pmod.get_runtime = emod.get_runtime = lambda: RT()
+    import logging
+    plog = logging.getLogger('bqskit.passes.synthesis.pas')
+    plevel = plog.level
+    plog.setLevel(logging.ERROR)          # "No permutation is being used in PAS."
+    lines, expect = [], []
+    try:
+        for n, r in ((3, 2), (3, 3), (2, 2)) if ctx.quick() else ((3, 2), (3, 3), (2, 2), (2, 3), (1, 2)):
+            perms = list(it.permutations(range(n)))
+            for p in perms:        # the harness' own permutation matrices agree with the library's
+                if not np.array_equal(perm_matrix(n, r, p), np.array(PermutationMatrix.from_qudit_location(n, r, p).numpy).real):
+                    ctx.violation(dict(call='from_qudit_location'), dict(n=n, radix=r, perm=p), 'relabelling matrix', 'different', 'permutation matrix convention')
+            targets = [('haar', make_input(dict(kind='unitary', family='haar', n=n, radix=r, seed=rng.randrange(2 ** 31))))]
+            if not ctx.quick():
+                tperms = perms
+            elif (n, r) == (3, 2):
+                tperms = [perms[3], perms[4], rng.choice([perms[1], perms[2], perms[5]])]   # both 3-cycles + a transposition
+            else:
+                tperms = []
+            for p in tperms:
+                targets.append((f'perm{p}.local', local_perm_target(n, r, p, rng.randrange(2 ** 30))))
+            for tname, U in targets:
+                Un = np.array(U.numpy)
+                for ip, op in ((False, True), (True, False), (True, True), (False, False)):
+                    if ctx.quick() and ((not ip and not op and tname != 'haar') or ((n, r) != (3, 2) and ip and not op)):
+                        continue
+                    ncand = len(perms) ** (int(ip) + int(op))
+                    winners = list(range(ncand))
+                    if ncand > 6 and ctx.quick():
+                        winners = rng.sample(winners, 8 if (n, r) == (3, 2) else 3)
+                    scripts = [[5 if j != w else 1 for j in range(ncand)] for w in winners]
+                    scripts.append([3] * ncand)                                   # all tied: the first wins
+                    if ncand > 2:
+                        a, b = sorted(rng.sample(range(ncand), 2))
+                        scripts.append([2 if j in (a, b) else 4 for j in range(ncand)])   # tie of two minima
+                    for sc in scripts:
+                        st['n'], st['scores'] = 0, sc
+                        pas = PermutationAwareSynthesisPass(input_perm=ip, output_perm=op, inner_synthesis=Exact(), scoring_fn=score)
+                        data = PassData(Circuit(n, [r] * n))
+                        case = dict(n=n, radix=r, target=tname, input_perm=ip, output_perm=op, scores=sc)
+                        ctx.case(('pas', n, r, tname, ip, op, tuple(sc)), nontrivial=ncand > 1)
+                        ctx.count('pas_probe')
+                        try:
+                            circ = drive(pas.synthesize(U, data))
+                        except Exception as e:  # noqa
+                            ctx.violation(dict(call='PermutationAwareSynthesisPass.synthesize', symptom='exception'), case, 'a circuit',
+                                          f'{type(e).__name__}: {e}', 'PAS raised on a unitary target')
+                            continue
+                        pi = tuple(data.get('initial_mapping', tuple(range(n))))
+                        pf = tuple(data.get('final_mapping', tuple(range(n))))
+                        want = perm_matrix(n, r, pf).T @ Un @ perm_matrix(n, r, pi)
+                        got = np.array(circ.get_unitary().numpy)
+                        cost = hs_cost_np(got, want)
+                        if not cost <= 1e-9:
+                            alt = hs_cost_np(got, perm_matrix(n, r, pf) @ Un @ perm_matrix(n, r, pi).T)
+                            ctx.violation(dict(call='PermutationAwareSynthesisPass.synthesize', symptom='reported_mapping_wrong'),
+                                          dict(case, initial_mapping=pi, final_mapping=pf), 'circuit == PF^T . U . PI (cost 0)',
+                                          dict(cost=float(cost), cost_if_inverse_mapping=float(alt)),
+                                          'PAS: the returned circuit is not the target under the mapping the pass reports')
+                        lines.append(f"pas {int(ip)} {int(op)} {len(perms)} [{' '.join(map(str, sc))}]")
+                        expect.append((case, [getattr(circ, '_idx', -1), perms.index(pi), perms.index(pf)]))
+                # EmbedAllPermutationsPass: every stored (pi, pf) entry obeys the same equation
+                for ip, op in ((False, True), (True, True)):
+                    if ctx.quick() and ((n, r) != (3, 2) or (tname != 'haar' and ip)):
+                        continue
+                    st['n'], st['scores'] = 0, []
+                    emb = EmbedAllPermutationsPass(inner_synthesis=Exact(), input_perm=ip, output_perm=op, vary_topology=False)
+                    c0 = Circuit.from_unitary(U)
+                    data = PassData(c0)
+                    try:
+                        drive(emb.run(c0, data))
+                    except Exception as e:  # noqa
+                        ctx.violation(dict(call='EmbedAllPermutationsPass.run', symptom='exception'), dict(n=n, radix=r, target=tname),
+                                      'permutation_data', f'{type(e).__name__}: {e}', 'embed pass raised')
+                        continue
+                    ctx.case(('embed', n, r, tname, ip, op))
+                    ctx.count('embed_probe')
+                    for graph, gd in data['permutation_data'].items():
+                        for (pi, pf), circ in gd.items():
+                            want = perm_matrix(n, r, pf).T @ Un @ perm_matrix(n, r, pi)
+                            cost = hs_cost_np(np.array(circ.get_unitary().numpy), want)
+                            if not cost <= 1e-9:
+                                ctx.violation(dict(call='EmbedAllPermutationsPass.run', symptom='reported_mapping_wrong'),
+                                              dict(n=n, radix=r, target=tname, input_perm=ip, output_perm=op, pi=pi, pf=pf),
+                                              'entry (pi, pf) == PF^T . U . PI', float(cost),
+                                              'embed pass: a stored circuit is not the target under its own (pi, pf) key')
+    finally:
+        pmod.get_runtime, emod.get_runtime = o_q, o_e
+        plog.setLevel(plevel)
+    outs = vf.run_model('skeleton', lines) if lines else []
+    for ln, mo, (case, got) in zip(lines, outs, expect):
+        if mo != '[' + ' '.join(map(str, got)) + ']':
+            ctx.violation(dict(call='PermutationAwareSynthesisPass.synthesize', kind='model-mismatch'), dict(case, query=ln), mo, got,
+                          'PAS winner / reported mapping differ from the Coq model', kind='correspondence',
+                          corr='coq/pass/Skeleton.v pas vs passes/synthesis/pas.py')
+    ctx.cov['pas_model_queries'] = len(lines)
+
+
+# =======================================================================================
 # D. real numerics
 # =======================================================================================
 U_FAMILIES = ['haar', 'identity', 'permutation', 'qudit_permutation', 'diagonal', 'clifford', 'near_identity']
@@ -1006,12 +1183,17 @@ def real_cases(ctx):
     def add(kind, family, n, radix, level, timeout, **kw):
         c = dict(kind=kind, family=family, n=n, radix=radix, level=level, seed=rng.randrange(2 ** 31), timeout=timeout, **kw)
         c['id'] = (f"{kind}-{family}-r{radix}w{n}-L{level}-{c['seed']}" + (f"-k{kw['k']}" if 'k' in kw else '')
-                   + (f"-{kw['model']}" if 'model' in kw else '') + (f"-eps{kw['eps']}" if 'eps' in kw else ''))
+                   + (f"-{kw['model']}" if 'model' in kw else '') + (f"-eps{kw['eps']}" if 'eps' in kw else '')
+                   + (f"-p{''.join(map(str, kw['perm']))}" if 'perm' in kw else ''))
         cases.append(c)
         return c
 
     if ctx.quick():
         t = 45
+        # level 4 on 3 qudits where the winning output permutation is a 3-cycle (the only permutations that differ from
+        # their inverse): the reported final_mapping must be the one the circuit was synthesized for
+        add('unitary', 'perm_local', 3, 2, 4, 100, perm=[1, 2, 0], model='swapu3', priority=1)
+        add('unitary', 'perm_local', 3, 2, 4, 100, perm=[2, 0, 1], model='swapu3', priority=1)
         add('unitary', 'haar', 1, 2, 1, t)
         add('unitary', 'near_identity', 1, 2, 3, t)
         add('unitary', 'haar', 2, 2, 1, t)
@@ -1052,6 +1234,12 @@ def real_cases(ctx):
             for lvl in (1, 2, 3, 4):
                 add('unitary', 'haar', n, 2, lvl, t, model='czrzsx')
         add('unitary', 'haar', 2, 2, 1, t, model='wide')
+        import itertools as _it
+        for pm in _it.permutations(range(3)):
+            add('unitary', 'perm_local', 3, 2, 4, 600, perm=list(pm), model='swapu3')
+        add('unitary', 'perm_local', 3, 2, 4, 900, perm=[1, 2, 0])
+        add('unitary', 'perm_local', 3, 2, 4, 900, perm=[2, 0, 1])
+        add('unitary', 'perm_local', 2, 3, 4, 900, perm=[1, 0])
         # other budgets: the bound scales with synthesis_epsilon
         add('unitary', 'haar', 2, 2, 1, t, eps=1e-4)
         add('unitary', 'clifford', 2, 2, 2, t, eps=1e-12)
@@ -1102,12 +1290,12 @@ def real_numerics(ctx, extra_cases=()):
     special = list(extra_cases) + [c for c in main_cases if c.get('timeout', 999) <= 30]
     batches[0] = special
     loads[0] = sum(weight(c) for c in special) + 25 * len(special)
-    for c in sorted((c for c in main_cases if c not in special), key=weight, reverse=True):
-        i = loads.index(min(loads))
+    for c in sorted((c for c in main_cases if c not in special), key=lambda c: (c.get('priority', 0), weight(c)), reverse=True):
+        i = 1 + loads[1:].index(min(loads[1:])) if c.get('priority') and nb > 1 else loads.index(min(loads))
         batches[i].append(c)
         loads[i] += weight(c)
     for b in batches[1:]:
-        b.sort(key=weight)
+        b.sort(key=lambda c: (-c.get('priority', 0), weight(c)))
     budget = float(os.environ.get('C03_REAL_BUDGET', 100 if ctx.quick() else 1700))
     t0 = time.time()
     results, used_ns = run_workers(batches, budget)
@@ -1125,6 +1313,9 @@ def real_numerics(ctx, extra_cases=()):
             ctx.count('real_unanswered_budget')
             continue
         ctx.count('real_status_' + r['status'])
+        if r['status'] == 'ok' and c.get('family') == 'perm_local' and sorted(r.get('pf', [])) == list(range(c['n'])) \
+                and c['n'] == 3 and all(r['pf'][i] != i for i in range(3)):
+            ctx.count('real_level4_winner_is_3cycle')
         judge(ctx, c, r)
         if r['status'] == 'ok' and c['kind'] != 'list' and len(ctx.samples) < 6:
             ctx.sample(dict(case=c['id'], cost=r.get('cost_mapped'), ops=r.get('ops'), pf=r.get('pf'), wall=r.get('wall')))
@@ -1201,6 +1392,9 @@ def run(ctx: 'vf.Ctx'):
     tb = time.time()
     list_correspondence(ctx)
     ctx.cov['t_list_s'] = round(time.time() - tb, 1)
+    tb = time.time()
+    pas_probe(ctx)
+    ctx.cov['t_pas_probe_s'] = round(time.time() - tb, 1)
     extra = []
     cdir = vf.ROOT / 'corpus' / 'C03'
     if cdir.exists():
